@@ -1,6 +1,7 @@
 // C27 — assets are conserved (contract-balance kernel and the TR step in a contract context) and
 // C30 — only contracts listed as inputs are touched (Normal verifier, BAL/TR steps).
-// Storage: the real MemoryStorage (BTreeMap tables).  Contract / asset ids are concrete and pairwise
+// Storage: SlotStorage (slot_storage.rs), an association-list InterpreterStorage; the real MemoryStorage's
+// BTreeMap<ContractsAssetKey, Word> gives no verdict in 900 s.  Contract / asset ids are concrete and pairwise
 // distinct (a separate instance has source == destination); amounts, balances, presence of the
 // entries, membership in the input set, gas registers and the gas schedule are symbolic.
 use super::*;
@@ -22,13 +23,14 @@ const ASSET2: AssetId = AssetId::new([0xAB; 32]);
 
 fn rid(i: usize) -> RegId { RegId::new(i as u8) }
 
-fn get(st: &MemoryStorage, c: &ContractId, a: &AssetId) -> Option<Word> {
+use super::slotst::SlotStorage;
+fn get(st: &SlotStorage, c: &ContractId, a: &AssetId) -> Option<Word> {
     st.contract_asset_id_balance(c, a).unwrap()
 }
 
 /// Storage with optional balances for (SRC, ASSET) and (DST, ASSET) and two bystanders.
-fn any_storage(src_eq_dst: bool) -> (MemoryStorage, Option<Word>, Option<Word>, Word, Word) {
-    let mut st = MemoryStorage::new(Default::default(), ContractId::zeroed());
+fn any_storage(src_eq_dst: bool) -> (SlotStorage, Option<Word>, Option<Word>, Word, Word) {
+    let mut st = SlotStorage::new();
     let s: Option<Word> = if kani::any() { Some(kani::any()) } else { None };
     let d: Option<Word> = if src_eq_dst { s } else if kani::any() { Some(kani::any()) } else { None };
     if let Some(v) = s { st.contract_asset_id_balance_insert(&SRC, &ASSET, v).unwrap(); }
@@ -42,7 +44,7 @@ fn any_storage(src_eq_dst: bool) -> (MemoryStorage, Option<Word>, Option<Word>, 
 macro_rules! ah {
     ($name:ident, $body:block) => {
         #[kani::proof]
-        #[kani::unwind(70)]
+        #[kani::unwind(140)]
         #[kani::stub(crate::constraints::reg_key::split_registers, split_registers_model)]
         #[kani::stub(core::result::Result::expect, expect_model)]
         #[kani::stub(core::result::Result::unwrap, unwrap_model)]
@@ -98,19 +100,19 @@ ah!(c27_balance_decrease, {
 });
 
 // --- Normal::check_contract_in_inputs ----------------------------------------------------------
+// The set is a harness constant ({SRC, DST}: a BTreeSet whose *shape* is symbolic gives no verdict in
+// 900 s); the queried id is symbolic among four candidates, two of them listed.
 ah!(c30_check_contract_in_inputs, {
     let mut set: BTreeSet<ContractId> = BTreeSet::new();
-    let (in1, in2): (bool, bool) = (kani::any(), kani::any());
-    if in1 { set.insert(SRC); }
-    if in2 { set.insert(DST); }
+    set.insert(SRC);
+    set.insert(DST);
     let which: u8 = kani::any();
-    kani::assume(which < 3);
-    let id = if which == 0 { SRC } else if which == 1 { DST } else { OTHER };
+    kani::assume(which < 4);
+    let id = if which == 0 { SRC } else if which == 1 { DST } else if which == 2 { OTHER } else { ContractId::zeroed() };
     let mut pc = PanicContext::None;
     let mut v = Normal;
     let r = v.check_contract_in_inputs(&mut pc, &set, &id);
-    let member = (which == 0 && in1) || (which == 1 && in2);
-    if member {
+    if which < 2 {
         assert!(r.is_ok());
         assert!(matches!(pc, PanicContext::None));
         kani::cover!(true, "listed contract accepted");
@@ -119,6 +121,10 @@ ah!(c30_check_contract_in_inputs, {
         assert!(matches!(pc, PanicContext::ContractId(c) if c == id));
         kani::cover!(true, "unlisted contract refused");
     }
+    // the empty set lists nobody
+    let empty: BTreeSet<ContractId> = BTreeSet::new();
+    let mut pc2 = PanicContext::None;
+    assert!(v.check_contract_in_inputs(&mut pc2, &empty, &id).is_err());
     core::mem::forget(set);
 });
 
@@ -136,7 +142,9 @@ fn tr_memory(src: &ContractId, dst: &ContractId) -> MemoryInstance {
     MemoryInstance::verif_from_parts(stack, Vec::new(), MEM_SIZE)
 }
 
-fn tr_case(src_eq_dst: bool) {
+// `listed` (is the destination among the contract inputs) is a harness constant: a BTreeSet whose shape is
+// symbolic gives no verdict in 900 s.
+fn tr_case(src_eq_dst: bool, listed: bool) {
     let dst = if src_eq_dst { SRC } else { DST };
     let (st, s, d, o1, o2) = any_storage(src_eq_dst);
     let gas = any_gas_costs();
@@ -148,10 +156,8 @@ fn tr_case(src_eq_dst: bool) {
     regs[0x10] = 64; regs[0x11] = amount; regs[0x12] = 96;
     let probe: usize = kani::any();
     kani::assume(probe < 64);
-    let mut vm = mk_vm(regs, tr_memory(&SRC, &dst), gas);
-    vm.storage = st;
+    let mut vm = mk_vm_with(regs, tr_memory(&SRC, &dst), gas, st);
     vm.context = Context::Call { block_height: Default::default() };
-    let listed: bool = kani::any();
     if listed { vm.input_contracts.insert(dst); }
     vm.input_contracts.insert(OTHER);
     let res = op::TR::new(rid(0x10), rid(0x11), rid(0x12)).execute(&mut vm);
@@ -216,11 +222,12 @@ fn tr_case(src_eq_dst: bool) {
     }
     core::mem::forget(vm);
 }
-ah!(c27_tr_internal, { tr_case(false) });
-ah!(c27_tr_internal_self, { tr_case(true) });
+ah!(c27_tr_internal, { tr_case(false, true) });
+ah!(c27_tr_internal_self, { tr_case(true, true) });
+ah!(c30_tr_internal_unlisted, { tr_case(false, false) });
 
 // --- BAL step -----------------------------------------------------------------------------------
-ah!(c30_bal, {
+fn bal_case(listed: bool) {
     let (st, s, _d, o1, o2) = any_storage(false);
     let gas = any_gas_costs();
     let cost = gas.bal;
@@ -232,9 +239,7 @@ ah!(c30_bal, {
     regs[0x11] = 96; regs[0x12] = 32; // asset id, contract id (= SRC)
     let probe: usize = kani::any();
     kani::assume(probe < 64);
-    let mut vm = mk_vm(regs, tr_memory(&SRC, &DST), gas);
-    vm.storage = st;
-    let listed: bool = kani::any();
+    let mut vm = mk_vm_with(regs, tr_memory(&SRC, &DST), gas, st);
     if listed { vm.input_contracts.insert(SRC); }
     vm.input_contracts.insert(OTHER);
     let res = op::BAL::new(rid(ra), rid(0x11), rid(0x12)).execute(&mut vm);
@@ -258,7 +263,9 @@ ah!(c30_bal, {
     }
     assert!(get(&vm.storage, &SRC, &ASSET) == s && get(&vm.storage, &OTHER, &ASSET) == Some(o1));
     core::mem::forget(vm);
-});
+}
+ah!(c30_bal_listed, { bal_case(true) });
+ah!(c30_bal_unlisted, { bal_case(false) });
 
 // --- PredicateStorage refuses every contract table ------------------------------------------------
 ah!(c30_predicate_storage_refuses, {
@@ -301,3 +308,132 @@ ah!(c30_predicate_storage_refuses, {
     assert!(buf == [0u8; 4], "refused reads do not write the buffer");
     kani::cover!(true, "all contract-table methods refused");
 });
+
+// --- post-execution outputs: change = remaining balance (+ refund for the base asset), revert resets
+//     to the initial balance (+ refund) and zeroes variable outputs ---------------------------------
+use crate::checked_transaction::NonRetryableFreeBalances;
+use crate::interpreter::{ExecutableTransaction, InitialBalances};
+use fuel_tx::{field::Outputs, policies::{Policies, PolicyType}, Chargeable, Output, Transaction};
+use fuel_types::Address;
+
+struct Bal { base: Word, other: Word }
+impl<'a> core::ops::Index<&'a AssetId> for Bal {
+    type Output = Word;
+    fn index(&self, a: &'a AssetId) -> &Word { if *a == ASSET { &self.base } else { &self.other } }
+}
+
+ah!(c27_update_outputs, {
+    let revert: bool = kani::any();
+    let used_gas: Word = kani::any();
+    let (mf, tip): (Word, Word) = (kani::any(), kani::any());
+    let mut pol = Policies::new();
+    pol.set(PolicyType::MaxFee, Some(mf));
+    pol.set(PolicyType::Tip, Some(tip));
+    let (to1, to2) = (Address::new([1; 32]), Address::new([2; 32]));
+    let (c0, v0, k0): (Word, Word, Word) = (kani::any(), kani::any(), kani::any());
+    let mut tx = Transaction::script(kani::any(), Vec::new(), Vec::new(), pol, Vec::new(),
+        alloc::vec![Output::change(to1, kani::any(), ASSET), Output::change(to2, kani::any(), ASSET2),
+                    Output::variable(to1, v0, ASSET2), Output::coin(to2, k0, ASSET),
+                    Output::contract(0, Default::default(), Default::default())], Vec::new());
+    let (ib, io, rb, ro): (Word, Word, Word, Word) = (kani::any(), kani::any(), kani::any(), kani::any());
+    let mut m = alloc::collections::BTreeMap::new();
+    m.insert(ASSET, ib);
+    m.insert(ASSET2, io);
+    let initial = InitialBalances { non_retryable: NonRetryableFreeBalances(m), retryable: None };
+    let bal = Bal { base: rb, other: ro };
+    let gas_costs = GasCosts::default();
+    let fee = FeeParameters::DEFAULT;
+    // gas price 0: the refund arithmetic itself is C18's subject; here refund = fee limit - tip
+    let refund = tx.refund_fee(&gas_costs, &fee, used_gas, 0);
+    assert!(refund == mf.checked_sub(tip));
+    let r = tx.update_outputs(revert, used_gas, &initial, &bal, &gas_costs, &fee, &ASSET, 0);
+    match refund {
+        None => { assert!(r.is_err()); kani::cover!(true, "uncomputable refund"); }
+        Some(refund) => {
+            let base_src = if revert { ib } else { rb };
+            if (base_src as u128) + (refund as u128) > u64::MAX as u128 {
+                assert!(r.is_err(), "overflowing change is an error, never a wrapped amount");
+                kani::cover!(true, "change overflow");
+            } else {
+                assert!(r.is_ok());
+                let o = tx.outputs();
+                assert!(matches!(o[0], Output::Change { to, amount, asset_id } if to == to1 && asset_id == ASSET && amount == base_src + refund));
+                assert!(matches!(o[1], Output::Change { to, amount, asset_id } if to == to2 && asset_id == ASSET2 && amount == (if revert { io } else { ro })));
+                assert!(matches!(o[2], Output::Variable { to, amount, asset_id } if to == to1 && asset_id == ASSET2 && amount == (if revert { 0 } else { v0 })));
+                assert!(matches!(o[3], Output::Coin { to, amount, asset_id } if to == to2 && asset_id == ASSET && amount == k0));
+                assert!(o.len() == 5 && o[4].is_contract());
+                kani::cover!(revert, "reverted outputs");
+                kani::cover!(!revert, "successful outputs");
+            }
+        }
+    }
+    core::mem::forget(tx);
+    core::mem::forget(initial);
+});
+
+// a variable output slot can be filled exactly once
+ah!(c27_replace_variable_output, {
+    let (a0, a1): (Word, Word) = (kani::any(), kani::any());
+    let (to1, to2) = (Address::new([1; 32]), Address::new([2; 32]));
+    let mut tx = Transaction::script(0, Vec::new(), Vec::new(), Policies::new(), Vec::new(),
+        alloc::vec![Output::variable(Address::zeroed(), a0, AssetId::zeroed()), Output::coin(to1, a1, ASSET), Output::variable(to2, 0, ASSET2)], Vec::new());
+    let idx: usize = kani::any();
+    let amount: Word = kani::any();
+    let is_var: bool = kani::any();
+    let new = if is_var { Output::variable(to1, amount, ASSET) } else { Output::coin(to1, amount, ASSET) };
+    let r = tx.replace_variable_output(idx, new);
+    let o = tx.outputs();
+    if !is_var {
+        assert!(matches!(r, Err(crate::error::PanicOrBug::Panic(PanicReason::ExpectedOutputVariable))));
+    } else if (idx == 0 && a0 == 0) || idx == 2 {
+        assert!(r.is_ok());
+        assert!(matches!(o[idx], Output::Variable { to, amount: a, asset_id } if to == to1 && a == amount && asset_id == ASSET));
+        kani::cover!(true, "empty variable slot filled");
+    } else {
+        assert!(matches!(r, Err(crate::error::PanicOrBug::Panic(PanicReason::OutputNotFound))));
+        kani::cover!(idx == 0, "already filled variable slot refused");
+        kani::cover!(idx == 1, "non-variable slot refused");
+        kani::cover!(idx > 2, "missing slot refused");
+    }
+    if r.is_err() {
+        assert!(matches!(o[0], Output::Variable { amount, .. } if amount == a0));
+        assert!(matches!(o[1], Output::Coin { amount, .. } if amount == a1));
+    }
+    core::mem::forget(tx);
+});
+
+// TR from a script (external) context: the input check comes first also there (empty free balances)
+fn tr_external_case(listed: bool) {
+    let (st, s, d, o1, o2) = any_storage(false);
+    let gas = any_gas_costs();
+    let cost = gas.tr;
+    let mut regs = any_registers();
+    assume_reg_inv(&regs);
+    kani::assume(regs[R_HP] == VM_MAX_RAM && regs[R_FP] == 0 && regs[R_SP] <= LS as Word);
+    let amount: Word = kani::any();
+    regs[0x10] = 64; regs[0x11] = amount; regs[0x12] = 96;
+    let probe: usize = kani::any();
+    kani::assume(probe < 64);
+    let mut vm = mk_vm_with(regs, tr_memory(&SRC, &DST), gas, st);
+    vm.context = Context::Script { block_height: Default::default() };
+    if listed { vm.input_contracts.insert(DST); }
+    let res = op::TR::new(rid(0x10), rid(0x11), rid(0x12)).execute(&mut vm);
+    if let Some(exp) = charge(&regs, &vm.registers, &res, cost, probe) {
+        if !listed {
+            assert!(matches!(res, Err(RuntimeError::Recoverable(PanicReason::ContractNotInInputs))));
+            assert!(matches!(vm.panic_context, PanicContext::ContractId(c) if c == DST));
+            kani::cover!(true, "unlisted destination refused from a script");
+        } else if amount == 0 {
+            assert!(matches!(res, Err(RuntimeError::Recoverable(PanicReason::TransferZeroCoins))));
+        } else {
+            // the script has no free balance of this asset
+            assert!(matches!(res, Err(RuntimeError::Recoverable(PanicReason::NotEnoughBalance))));
+            kani::cover!(true, "no free balance");
+        }
+        assert!(vm.registers[probe] == exp[probe]);
+    }
+    assert!(get(&vm.storage, &DST, &ASSET) == d && get(&vm.storage, &SRC, &ASSET) == s, "no contract balance is touched");
+    core::mem::forget(vm);
+}
+ah!(c30_tr_external_listed, { tr_external_case(true) });
+ah!(c30_tr_external_unlisted, { tr_external_case(false) });
